@@ -118,7 +118,8 @@ theorem updateConnectionID_nonempty {m : Manager} (h : Reach m) (hc : m.closed =
     spec advertises, the expiry callback of `ReplaceWithClosed` deletes only entries that still hold its own stand-in. -/
 theorem shape_facts :
     Uquic.Gen.ConnID.enforcedBoundIsGE = true ∧ Uquic.Gen.ConnID.enforcedBoundUsesConnIDLimit = true ∧ Uquic.Gen.ConnID.setConnectionIDLimitStores = true ∧
-    Uquic.Gen.ConnID.specClientSetsConnIDLimit = true ∧ Uquic.Gen.ConnID.expiryDeletesOnlyOwnHandler = true := by decide
+    Uquic.Gen.ConnID.specClientSetsConnIDLimit = true ∧ Uquic.Gen.ConnID.expiryDeletesOnlyOwnHandler = true ∧
+    Uquic.Gen.ConnID.serverGeneratorTracksRoutedIDs = true := by decide
 
 /-- Full strength: whatever limit `adv` the endpoint advertised — the plain constant, or the limit of a QUIC spec
     recorded with `SetConnectionIDLimit` — a NEW_CONNECTION_ID frame after which at most `adv` connection IDs are in
